@@ -587,6 +587,17 @@ impl NISPSignaturePoK {
 
         let mut t_Cx = Integer::from(1);
         let N = &signer_pk.N;
+
+        // the commitments are residues modulo N: only their canonical representatives are accepted
+        let is_residue = |x: &Integer| *x >= 0 && x < N;
+        if !(is_residue(&self.Cx.value)
+            && is_residue(&self.Cv.value)
+            && is_residue(&self.Cw.value)
+            && is_residue(&self.Ce.value))
+        {
+            return false;
+        }
+
         let mut idx: usize = 0;
         let mut idx_revealed_msgs: usize = 0;
 
